@@ -481,6 +481,7 @@ impl Engine for ShellSim {
                 let n = pkt.len();
                 line["dig"] = json!(dig(&pkt));
                 line["isdata"] = json!(get_srt_sequence_number(&pkt).is_some());
+                line["pseq"] = json!(get_srt_sequence_number(&pkt).map(|x| x as i64).unwrap_or(-1));
                 line["rex"] = json!(is_srt_data_retransmit(&pkt));
                 line["critopen"] = json!(self.cw.is_critical_now(self.now));
                 let q0: Vec<i32> = self.conns.iter().map(|c| c.batch_sender.queued_count()).collect();
@@ -545,6 +546,15 @@ impl Engine for ShellSim {
                 line["len"] = json!(bytes.len());
                 line["dig"] = json!(dig(&bytes));
                 line["head"] = json!(bytes.iter().take(20).map(|b| *b as i64).collect::<Vec<_>>());
+                // parsed number lists of ACK / NAK datagrams (the real parsers; the codec check owns them)
+                // (numbers >= 2^31 can name no data packet -- the code casts them to negative i32 -- and are logged as -1)
+                let m = |x: u32| -> i64 { if x >= 0x8000_0000 { -1 } else { x as i64 } };
+                match cls_of(&bytes) {
+                    "srt_nak" => line["nums"] = json!(parse_srt_nak(&bytes).iter().map(|x| m(*x)).collect::<Vec<_>>()),
+                    "srtla_ack" => line["nums"] = json!(parse_srtla_ack(&bytes).iter().map(|x| m(*x)).collect::<Vec<_>>()),
+                    "srt_ack" => line["nums"] = json!(parse_srt_ack(&bytes).map(|x| vec![m(x)]).unwrap_or_default()),
+                    _ => line["nums"] = json!(Vec::<i64>::new()),
+                }
                 let pre_wait = self.conns[l].rtt.waiting_for_keepalive_response;
                 line["waiting0"] = json!(pre_wait);
                 // keepalive echo: now - timestamp, clamped into 32 bits (0 / negative = not in the past)
